@@ -161,7 +161,7 @@ def plan(prop, tier):
         fams.append(("edge", edge, None))
         # the sources of the crate by themselves (the properties speak about "every source and operator")
         fams += [f for f in plan("C15", tier) if f[0] in ("fromiter", "fromiter_serr", "fromiter_r2")]
-        fams += [f for f in plan("C16", tier) if f[0] in ("interval_p1_s1", "interval_p1_s2")]
+        fams += [f for f in plan("C16", tier) if f[0] in ("interval_p1_s1", "interval_p1_s2", "interval_serr")]
         if prop == "C01":
             # sinks of a shared source that make each other attach / pull / detach from inside their handlers
             # (for C02-C04 this family only adds further variants of finding F2: snapshot fan-out)
@@ -330,6 +330,10 @@ def plan(prop, tier):
                 fams.append((f"interval_p{period}_s{ns}",
                              scen.with_bounds(g, "interval", sinks=["probe"] * ns, maxTop=(6 if ns < 3 else 5) if q else (8 if ns < 3 else 6),
                                               maxPull=0, allowFail=True), None))
+        # a sink that disposes with Error instead of Terminate
+        g = {"nodes": [{"id": 1, "kind": "interval", "period": 1}], "root": 1}
+        fams.append(("interval_serr", scen.with_bounds(g, "interval", sinks=["probe", "probe"], maxTop=5, maxPull=1,
+                                                       allowFail=False, sinkErr=True), None))
         g = {"nodes": [{"id": 1, "kind": "interval", "period": 3}], "root": 1}
         fams[0] = (fams[0][0], fams[0][1], scen.with_bounds(g, "interval", sinks=["probe"] * 3, maxTop=10, maxPull=1,
                                                           allowFail=True, sinkErr=True))
